@@ -33,12 +33,13 @@ TINY = ["se", "s1", "W", "P", "K1"]
 
 
 def bounds(tier):
-    q = [("A=1 K<=2 full alphabet", 1, 2, FULL, False), ("A=1 K=3 (s1, s2, K1, K2, T, W)", 1, 3, ["s1", "s2", "K1", "K2", "T", "W"], True),
-         ("A=2 K=1 full", 2, 1, FULL, True), ("A=3 K=1 full", 3, 1, FULL, True),
+    q = [("A=1 K<=2 full alphabet", 1, 2, FULL, False), ("A=1 K=3 (s1, s2, K2, W)", 1, 3, ["s1", "s2", "K2", "W"], True),
+         ("A=2 K=1 full", 2, 1, FULL, True),
          ("A=2 K=2 (se, s1, W, P, G, K1)", 2, 2, QUICK, True)]
     if tier == "quick":
         return q
-    return q + [("A=1 K=3 full", 1, 3, FULL, True), ("A=2 K=2 full", 2, 2, FULL, True), ("A=4 K=1 full", 4, 1, FULL, True),
+    return q + [("A=3 K=1 full", 3, 1, FULL, True), ("A=1 K=3 (s1, s2, K1, K2, T, W)", 1, 3, ["s1", "s2", "K1", "K2", "T", "W"], True),
+                ("A=1 K=3 full", 1, 3, FULL, True), ("A=2 K=2 full", 2, 2, FULL, True), ("A=4 K=1 full", 4, 1, FULL, True),
                 ("A=3 K=2 (6 symbols)", 3, 2, SMALL, True), ("A=2 K=3 (5 symbols)", 2, 3, TINY, True)]
 
 
@@ -200,7 +201,7 @@ def run(ctx):
             exhaustive = False
             break
         cases = enum(A, K, syms, exact)
-        if rate and len(cases) > 1500 and len(cases) / rate * 2.0 > ctx.deadline.left() - 25:      # would not finish
+        if not ctx.quick and rate and len(cases) > 1500 and len(cases) / rate * 2.0 > ctx.deadline.left() - 25:      # would not finish
             exhaustive = False
             break
         t_b = time.time()
